@@ -86,6 +86,7 @@ func templatesReplay(args []string) int {
 	of := fs.Int("of", 1, "number of slices")
 	watchdog := fs.Int("watchdog", 30, "seconds before a probe counts as a hang")
 	par := fs.Int("par", 8, "parallel probes")
+	progress := fs.String("progress", "", "with -par 1: file that holds the files of the case being probed (a fatal error kills the process)")
 	_ = fs.Parse(args)
 
 	f, err := os.Open(*in)
@@ -97,12 +98,17 @@ func templatesReplay(args []string) int {
 	sc := bufio.NewScanner(f)
 	sc.Buffer(make([]byte, 1<<20), 1<<28)
 	var cases []tplCase
+	seen := map[string]bool{} // -simulate evaluates the invariant on every successor: the same history is printed many times
 	idx := 0
 	for sc.Scan() {
 		line := sc.Text()
 		if !strings.HasPrefix(line, "<<\"CASE\", ") {
 			continue
 		}
+		if seen[line] {
+			continue
+		}
+		seen[line] = true
 		idx++
 		if idx%*of != *slice {
 			continue
@@ -122,6 +128,11 @@ func templatesReplay(args []string) int {
 	}
 	if abs, aerr := filepath.Abs(*trace); aerr == nil {
 		*trace = abs
+	}
+	if *progress != "" {
+		if abs, aerr := filepath.Abs(*progress); aerr == nil {
+			*progress = abs
+		}
 	}
 	if abs, aerr := filepath.Abs(*work); aerr == nil {
 		*work = abs
@@ -191,6 +202,10 @@ func templatesReplay(args []string) int {
 				case "dot":
 					roots = append(roots, "./"+rel)
 				}
+			}
+			if *progress != "" {
+				pj, _ := json.Marshal(map[string]any{"files": c.Files, "spelling": sp})
+				_ = os.WriteFile(*progress, pj, 0o644)
 			}
 			done := make(chan verifapi.TemplateProbeResult, 1)
 			go func() { done <- verifapi.TemplateProbe(builtin, "templates", roots, queries) }()
